@@ -392,6 +392,7 @@ func checkC16(c *Ctx) {
 			}
 			rs.Check(nZero >= 1, save.Name(), "zero-key arm exists", save.Body.Pos(), "blank key goes to the create pipeline", "Save no longer sends a value with a blank primary key to the create pipeline")
 		}
+		checkDoNothingScanMode(c, rs)
 		rs.Check(nFallback > 0, save.Name(), "fallback exists", save.Body.Pos(), "update-then-upsert fallback present", "Save has no insert fallback")
 		// slice arm: adds OnConflict{UpdateAll:true} unless user supplied ON CONFLICT
 		okSlice := false
